@@ -2,6 +2,8 @@ package checks
 
 import (
 	"fmt"
+	"reflect"
+	"sync"
 	"time"
 
 	"verif/internal/core"
@@ -127,4 +129,158 @@ func c18TypeName(n string) string {
 		}
 	}
 	return n
+}
+
+// Step 0b: edit histories. The structures export their fields, and the library's own wrappers derive values from values by
+// copying structs; a read-only operation that memoises what it computed (a serialisation, a hash, a parsed option) answers
+// from the memo after a field has been replaced. Differential oracle without a hand-written expectation: two identically
+// built copies A and B of a value, one exported byte-valued field replaced by a clone with one byte changed - on A before
+// any call, on B after the whole operation set has run once. Every operation must then answer the same on A and on B
+// ("the same result it would return alone"). Exhaustive over (value, editable field reachable through at most one
+// embedded pointer, operation).
+type c18Edit struct {
+	path string
+	at   func(root reflect.Value) reflect.Value // the field on a given copy
+}
+
+func c18EditableFields(root reflect.Value, prefix string, depth int) []c18Edit {
+	var out []c18Edit
+	if root.Kind() == reflect.Ptr {
+		if root.IsNil() {
+			return nil
+		}
+		root = root.Elem()
+	}
+	if root.Kind() != reflect.Struct {
+		return nil
+	}
+	t := root.Type()
+	for i := 0; i < t.NumField(); i++ {
+		f := t.Field(i)
+		if f.PkgPath != "" { // unexported
+			continue
+		}
+		idx := i
+		fv := root.Field(i)
+		name := prefix + f.Name
+		get := func(r reflect.Value) reflect.Value {
+			if r.Kind() == reflect.Ptr {
+				r = r.Elem()
+			}
+			return r.Field(idx)
+		}
+		switch {
+		case fv.Kind() == reflect.Slice && fv.Type().Elem().Kind() == reflect.Uint8 && fv.Len() > 0:
+			out = append(out, c18Edit{name, get})
+		case fv.Kind() == reflect.Ptr && !fv.IsNil() && fv.Type().Elem().Kind() == reflect.Array && fv.Type().Elem().Elem().Kind() == reflect.Uint8:
+			out = append(out, c18Edit{name, get})
+		case depth > 0 && fv.Kind() == reflect.Ptr && !fv.IsNil() && fv.Type().Elem().Kind() == reflect.Struct && f.Anonymous:
+			for _, e := range c18EditableFields(fv, name+".", depth-1) {
+				e := e
+				out = append(out, c18Edit{e.path, func(r reflect.Value) reflect.Value { return e.at(get(r)) }})
+			}
+		}
+	}
+	return out
+}
+
+func c18ApplyEdit(f reflect.Value) bool {
+	if !f.CanSet() {
+		return false
+	}
+	switch f.Kind() {
+	case reflect.Slice:
+		n := f.Len()
+		c := reflect.MakeSlice(f.Type(), n, n)
+		reflect.Copy(c, f)
+		i := n - 1 // the last byte: never a length prefix
+		c.Index(i).SetUint(c.Index(i).Uint() ^ 0x04)
+		f.Set(c)
+		return true
+	case reflect.Ptr:
+		c := reflect.New(f.Type().Elem())
+		c.Elem().Set(f.Elem())
+		i := c.Elem().Len() - 1
+		c.Elem().Index(i).SetUint(c.Elem().Index(i).Uint() ^ 0x04)
+		f.Set(c)
+		return true
+	}
+	return false
+}
+
+func c18EditHistories(r *core.Run) {
+	base := c18Values()
+	type target struct {
+		vi   int
+		edit c18Edit
+	}
+	var targets []target
+	for vi, v := range base {
+		for _, e := range c18EditableFields(reflect.ValueOf(v.v), "", 1) {
+			targets = append(targets, target{vi, e})
+		}
+	}
+	answers := func(v c18Value) []string {
+		ops := c18Ops(v)
+		out := make([]string, len(ops))
+		for k := range ops {
+			var s string
+			if pan, msg := core.Guard(func() { s = ops[k].run() }); pan {
+				s = "panic: " + msg
+			}
+			out[k] = s
+		}
+		return out
+	}
+	// reproducibility of each value's construction
+	a0, a1 := c18Values(), c18Values()
+	repro := make([]bool, len(base))
+	for vi := range base {
+		if vi < len(a0) && vi < len(a1) {
+			x, y := answers(a0[vi]), answers(a1[vi])
+			repro[vi] = fmt.Sprint(x) == fmt.Sprint(y)
+		}
+	}
+	reported := map[string]bool{}
+	var mu sync.Mutex
+	core.ParallelFor(len(targets), func(_, ti int) {
+		tg := targets[ti]
+		if !repro[tg.vi] {
+			return
+		}
+		va, vb := c18Values(), c18Values()
+		if tg.vi >= len(va) || tg.vi >= len(vb) {
+			return
+		}
+		A, B := va[tg.vi], vb[tg.vi]
+		var okA, okB bool
+		var ansA, ansB []string
+		if pan, _ := core.Guard(func() {
+			okA = c18ApplyEdit(tg.edit.at(reflect.ValueOf(A.v)))
+			ansA = answers(A)
+			answers(B) // B is used first ...
+			okB = c18ApplyEdit(tg.edit.at(reflect.ValueOf(B.v)))
+			ansB = answers(B) // ... and edited afterwards
+		}); pan || !okA || !okB || len(ansA) != len(ansB) {
+			return
+		}
+		names := c18Ops(A)
+		for k := range ansA {
+			r.Evaluations.Add(1)
+			r.States.Add(1)
+			if ansA[k] != ansB[k] {
+				id := "C18|answer-ignores-a-field-edited-after-earlier-calls|" + c18TypeName(base[tg.vi].name) + "." + names[k].name
+				mu.Lock()
+				dup := reported[id]
+				reported[id] = true
+				mu.Unlock()
+				if !dup {
+					r.Violate(id, fmt.Sprintf("value %s, exported field %s replaced by a copy with one byte changed: %s answers %.100q when the edit is made before any call, but %.100q when the operation set had run once before the edit - the value answers from something it remembered", base[tg.vi].name, tg.edit.path, names[k].name, ansA[k], ansB[k]),
+						core.Case{Kind: "firstop", Args: map[string]string{"value": base[tg.vi].name, "field": tg.edit.path, "op": names[k].name}})
+				}
+			}
+		}
+		r.Distinct([]byte("edit"), []byte(base[tg.vi].name), []byte(tg.edit.path))
+	})
+	r.Note("edit_history_targets", int64(len(targets)))
 }
